@@ -180,6 +180,49 @@ pub fn sorted_run_family() -> ListSpace {
     }
 }
 
+/// the metadata comments R8 writes below class and member lines (retrace's `rewriteFrame`, `synthesized`, `outline`,
+/// `outlineCallsite`, `residualsignature`): the text behind "# "
+pub fn r8_comment_texts() -> Vec<String> {
+    let mut v = Vec::new();
+    for thrown in ["La;", "Lp/A;", "Ljava/lang/NullPointerException;"] {
+        for n in ["0", "1", "2", "3", "40", "4294967295", "4294967296", "18446744073709551615", "-1"] {
+            v.push(format!("{{\"id\":\"com.android.tools.r8.rewriteFrame\",\"conditions\":[\"throws({})\"],\"actions\":[\"removeInnerFrames({})\"]}}", thrown, n));
+        }
+    }
+    v.push("{\"id\":\"com.android.tools.r8.synthesized\"}".into());
+    v.push("{\"id\":\"com.android.tools.r8.outline\"}".into());
+    v.push("{\"id\":\"com.android.tools.r8.outlineCallsite\",\"positions\":{\"1\":4,\"2\":5},\"outline\":\"La;m()V\"}".into());
+    v.push("{\"id\":\"com.android.tools.r8.residualsignature\",\"signature\":\"(I)V\"}".into());
+    v.push("{\"id\":\"com.android.tools.r8.mapping\",\"version\":\"2.2\"}".into());
+    v
+}
+
+/// MS-M R8 metadata family: one small mapping (an inline pair, a third range, a second class) with one R8 metadata
+/// comment at every position, at column 0 (a header record of the documented grammar: inert unless its key is
+/// `sourceFile`) and indented by 4 and 6 blanks (not records of the documented grammar: noise)
+pub fn r8_metadata_family() -> ListSpace {
+    let base = vec![
+        class("p.A", "a"),
+        method(Some((1, 5)), Some("p.Util"), "inner", "", Orig::SE(10, 14), "m"),
+        method(Some((1, 5)), None, "outer", "", Orig::S(20), "m"),
+        method(Some((7, 7)), None, "other", "int", Orig::None, "m"),
+        class("q.B", "b"),
+        method(None, None, "n", "", Orig::None, "n"),
+    ];
+    let mut files: Vec<(Vec<Line>, Term)> = Vec::new();
+    for text in r8_comment_texts() {
+        for indent in [0usize, 4, 6] {
+            let line = if indent == 0 { Line::Header { key: leak(&text), value: None } } else { Line::Noise(leak_bytes(format!("{}# {}", " ".repeat(indent), text).as_bytes())) };
+            for pos in 1..=base.len() {
+                let mut f = base.clone();
+                f.insert(pos, line);
+                files.push((f, Term::Lf));
+            }
+        }
+    }
+    ListSpace { name: "MS-M R8 metadata comments".into(), note: "a 6-line mapping (inline pair, third range, second class) with one of 32 R8 metadata comments (rewriteFrame with 3 thrown types x 9 counts, synthesized, outline, outlineCallsite, residualsignature, mapping version) at every position, at column 0 and indented by 4 / 6 blanks".into(), files, wide: false, chunk: Default::default() }
+}
+
 /// one character per UTF-8 lead-byte class, all 64 continuation bytes (U+0100..U+013F = C4 80 .. C4 BF), and ASCII punctuation
 pub fn special_chars() -> Vec<char> {
     let mut v: Vec<char> = Vec::new();
